@@ -12,8 +12,9 @@ Part A  arbitrary object graphs (cyclic kids, shared kids, missing objects, junk
         entry per object, and every entry is a page-class dictionary of the graph.
 Part B  well-formed trees: the flat index is the document-order list of leaves; a page's
         attribute is the value at the nearest ancestor-or-self that sets it.
-Part C  the two page-count APIs: `PdfDocument::page_count` is the length of the flat index,
-        `PdfReader::page_count` is the root `/Count`; they agree iff `/Count` is right.
+Part C  the two page-count APIs: both are the length of the flat index, whatever `/Count` says
+        (`PdfReader::page_count` read the root `/Count` before the repair of C18-F1: regression
+        witness about `readerPageCountDeclared`).
 -/
 namespace OxiVerif.C18
 
@@ -65,6 +66,19 @@ theorem C18_flatten_pages_are_pages (g : Graph) (root : Dict) (r : List Nat)
   · cases h0
   · exact ⟨h1.1, classify_leaf_mem g x h1.1⟩
   · exact ⟨h1.1, classify_leaf_mem g x h1.1⟩
+
+/-- Every listed page is reachable from the root through /Kids arrays (direct or indirect) of
+nodes the loop treats as /Pages nodes — on any graph, cyclic or not: nothing is listed that the
+tree does not contain. -/
+theorem C18_flatten_reachable (g : Graph) (root : Dict) (r : List Nat)
+    (h : flatten g root = some r) :
+    ∀ x ∈ r, Reach (classify g) (resolveKids g root.kids) x :=
+  loop_reach (classify g) _ _ _ _ _ r h (fun x hx => Reach.root x hx) (by simp)
+
+/-- a kid cycle back to the root's own kid (3 → [4, 3]) and a shared kid: page 4 is listed once
+and is reachable -/
+example : flatten [(3, .dict { ty := .pages, kids := .direct [.ref 4, .ref 3] }), (4, .dict { ty := .page })]
+    { ty := .pages, kids := .direct [.ref 3, .ref 4] } = some [4] := by decide
 
 theorem nodup_subset_length_le : ∀ (r ids : List Nat), r.Nodup → (∀ x ∈ r, x ∈ ids) →
     r.length ≤ ids.length := by
@@ -200,6 +214,68 @@ theorem C18_inherit_nearest (g : Graph) (page : Dict) (chain : List (Nat × Dict
     simp only [hp, Option.isNone_none, if_true, h0] at this
     simp [this, firstSome]
 
+/-- INHERITANCE ON INCONSISTENT TREES.  On ANY graph the walk visits a well-defined list of
+ancestors `chain` (`ChainT`: it ends at a node without /Parent, at a /Parent that is not a
+dictionary — dangling, null — or at the first node it meets a second time: a /Parent cycle or a
+page that is its own ancestor) and every key still comes from the nearest of THOSE ancestors that
+sets it: a truncated ancestor list, never a hang, never a value from a node seen twice. -/
+theorem C18_inherit_nearest_truncated (g : Graph) (page : Dict) (chain : List (Nat × Dict))
+    (hc : ChainT g [] page.parent chain) :
+    ∃ inh, collectInherited g page = some inh ∧
+      ∀ k, effective page inh k = firstSome (page.attr k :: chain.map (fun e => e.2.attr k)) := by
+  obtain ⟨r, hr, hk⟩ := walk_chainT g page chain page.parent [] {} hc
+  have hsome := C18_parent_walk_terminates g page
+  obtain ⟨s, hs⟩ := Option.isSome_iff_exists.mp hsome
+  have hs' := hs
+  unfold collectInherited at hs'
+  have e := walk_fuel_det g page _ _ _ _ _ _ _ hs' hr
+  refine ⟨s, hs, ?_⟩
+  intro k
+  rw [e]
+  unfold effective
+  have h0 : (({} : Inh).get k) = none := by cases k <;> rfl
+  cases hp : page.attr k with
+  | some v => simp [firstSome]
+  | none =>
+    have := hk k
+    simp only [hp, Option.isNone_none, if_true, h0] at this
+    simp [this, firstSome]
+
+/-- non-vacuity: a 2-cycle of /Parent links (1 ↔ 2) below the page, and a dangling /Parent -/
+example :
+    let d1 : Dict := { ty := .pages, parent := some 2, rot := some (.int 90) }
+    let d2 : Dict := { ty := .pages, parent := some 1, mb := some (.nums [some 0, some 0, some 8, some 8]) }
+    let g : Graph := [(1, .dict d1), (2, .dict d2)]
+    ChainT g [] (some 1) [(1, d1), (2, d2)] ∧ ChainT g [] (some 7) [] := by
+  refine ⟨?_, ChainT.dangling _ 7 (by decide)⟩
+  exact ChainT.step _ 1 _ _ (by decide) (by decide)
+    (ChainT.step _ 2 _ _ (by decide) (by decide) (ChainT.cycle _ 1 (by decide)))
+
+/-- INHERITED /Resources.  `ParsedPage::get_resources()`: the page's own inline dictionary wins;
+otherwise the nearest entry (own reference or inherited) is used, resolved through ONE reference;
+without any entry there are no resources. -/
+theorem C18_resources_nearest (g : Graph) (page : Dict) (inh : Inh) :
+    (∀ ks, page.res = some (.keys ks) → pageResources g page inh = some ks) ∧
+    (page.res = none → ∀ ks, inh.res = some (.keys ks) → pageResources g page inh = some ks) ∧
+    (∀ n ks, effective page inh .resources = some (.ref n) → g.get n = .raw (.keys ks) →
+      pageResources g page inh = some ks) ∧
+    (page.res = none → inh.res = none → pageResources g page inh = none) := by
+  refine ⟨?_, ?_, ?_, ?_⟩
+  · intro ks h; simp [pageResources, h]
+  · intro h ks hi; simp [pageResources, h, effective, Dict.attr, Inh.get, hi, resolveResKeys]
+  · intro n ks he hg
+    have hne : ∀ ks', page.res ≠ some (.keys ks') := by
+      intro ks' hp
+      simp [effective, Dict.attr, hp] at he
+    unfold pageResources
+    split
+    · rename_i ks' hp; exact absurd hp (hne ks')
+    · simp [he, resolveResKeys, hg, objKeys]
+  · intro h hi; simp [pageResources, h, effective, Dict.attr, Inh.get, hi]
+
+example : pageResources [(9, .raw (.keys ["Font", "XObject"]))] { ty := .page }
+    { res := some (.ref 9) } = some ["Font", "XObject"] := by decide
+
 /-- the value collected for a key the page itself sets is never used and stays empty -/
 theorem C18_inherit_own_wins (page : Dict) (inh : Inh) (k : Key) (v : Raw)
     (h : page.attr k = some v) : effective page inh k = some v := by
@@ -241,15 +317,15 @@ theorem C18_load_page_uses_collected (g : Graph) (id : Nat) (d : Dict) (inh : In
 (nearest ancestor-or-self) values; a missing MediaBox defaults to Letter, Rotate to 0. -/
 theorem C18_create_page_fields (g : Graph) (id : Nat) (d : Dict) (inh : Inh) (p : Page)
     (h : createPage g id d inh = some p) :
-    ∃ mbo cbo, getRect (effective d inh .mediaBox) = some mbo ∧
-      getRect (effective d inh .cropBox) = some cbo ∧
+    ∃ mbo cbo, getRect (resolveRaw g (effective d inh .mediaBox)) = some mbo ∧
+      getRect (resolveRaw g (effective d inh .cropBox)) = some cbo ∧
       p.id = id ∧ p.mediaBox = mbo.getD [0, 0, 1224, 1584] ∧ p.cropBox = cbo ∧
-      p.rotation = wrapI32 ((getInt (effective d inh .rotate)).getD 0) := by
+      p.rotation = wrapI32 ((getInt (resolveRaw g (effective d inh .rotate))).getD 0) := by
   unfold createPage at h
-  cases hm : getRect (effective d inh .mediaBox) with
+  cases hm : getRect (resolveRaw g (effective d inh .mediaBox)) with
   | none => simp [hm] at h
   | some mbo =>
-    cases hcb : getRect (effective d inh .cropBox) with
+    cases hcb : getRect (resolveRaw g (effective d inh .cropBox)) with
     | none => simp [hm, hcb] at h
     | some cbo =>
       simp [hm, hcb] at h
@@ -260,20 +336,68 @@ example : createPage [] 5 { mb := some (.nums [some 2, some 4, some 6, some 8]),
     some { id := 5, mediaBox := [2, 4, 6, 8], cropBox := none, rotation := 450, resources := none } := by
   decide
 
-/- FULL (false of the current code — finding C18-F2): the effective value of MediaBox / CropBox /
-   Rotate is the nearest ancestor-or-self's entry *after resolving an indirect reference*
-   (ISO 32000-1 §7.3.10 lets any value be indirect).  `get_rectangle` / `get_integer` look only
-   at direct values: an indirect `/MediaBox 5 0 R` counts as "set" (it shadows the ancestors)
-   but reads as absent, so the page gets the Letter default; an indirect /Rotate reads as 0.
-   `C18_inherit_nearest` above is the part that holds: WHICH entry is used is right. -/
+/-- INDIRECT VALUES (full statement since the repair of C18-F2; ISO 32000-1 §7.3.10 lets any value
+be indirect): the value read for MediaBox / CropBox / Rotate is the nearest ancestor-or-self's
+entry *after resolving one reference* — a reference to an object holding a value reads exactly
+like that value given directly, a direct value is untouched. -/
+theorem C18_resolve_indirect (g : Graph) (n : Nat) (r : Raw) (h : g.get n = .raw r) :
+    resolveRaw g (some (.ref n)) = some r := by
+  simp [resolveRaw, h]
 
-/-- WITNESS (C18-F2): MediaBox and Rotate given as references to `[0 0 100 200]` and `90` —
-the page comes out as Letter, unrotated. -/
-theorem C18_witness_indirect_attribute :
+theorem C18_resolve_direct (g : Graph) (v : Option Raw) (h : ∀ n, v ≠ some (.ref n)) :
+    resolveRaw g v = v := by
+  unfold resolveRaw
+  split
+  · rename_i n; exact absurd rfl (h n)
+  · rfl
+
+/-- … so a page whose entries are all direct is read exactly as before the repair … -/
+theorem C18_create_page_direct (g : Graph) (id : Nat) (d : Dict) (inh : Inh)
+    (hm : ∀ n, effective d inh .mediaBox ≠ some (.ref n))
+    (hc : ∀ n, effective d inh .cropBox ≠ some (.ref n))
+    (hr : ∀ n, effective d inh .rotate ≠ some (.ref n)) :
+    createPage g id d inh = createPageUnresolved g id d inh := by
+  simp [createPage, createPageUnresolved, C18_resolve_direct g _ hm, C18_resolve_direct g _ hc,
+    C18_resolve_direct g _ hr]
+
+/-- … and a page whose MediaBox and Rotate are references to a 4-number array and an integer
+gets exactly those values (the entry may be the page's own or an inherited one: `effective`). -/
+theorem C18_create_page_indirect (g : Graph) (id : Nat) (d : Dict) (inh : Inh) (nb nr : Nat)
+    (a b c e : Int) (i : Int)
+    (hm : effective d inh .mediaBox = some (.ref nb))
+    (hb : g.get nb = .raw (.nums [some a, some b, some c, some e]))
+    (hr : effective d inh .rotate = some (.ref nr)) (hi : g.get nr = .raw (.int i))
+    (hc : effective d inh .cropBox = none) :
+    ∃ p, createPage g id d inh = some p ∧ p.mediaBox = [a, b, c, e] ∧ p.rotation = wrapI32 i ∧
+      p.cropBox = none := by
+  refine ⟨{ id := id, mediaBox := [a, b, c, e], cropBox := none, rotation := wrapI32 i,
+            resources := (pageResources g d inh).map sortKeys }, ?_, rfl, rfl, rfl⟩
+  simp [createPage, hm, hr, hc, resolveRaw, hb, hi, getRect, getInt]
+
+/-- the former witness input now reads as the referenced values -/
+example :
     let g : Graph := [(5, .raw (.nums [some 0, some 0, some 200, some 400])), (6, .raw (.int 90))]
     let page : Dict := { ty := .page, mb := some (.ref 5), rot := some (.ref 6) }
     createPage g 3 page {} =
-      some { id := 3, mediaBox := [0, 0, 1224, 1584], cropBox := none, rotation := 0, resources := none } := by
+      some { id := 3, mediaBox := [0, 0, 200, 400], cropBox := none, rotation := 90, resources := none } := by
+  decide
+
+/-- a reference to something that is not a value (free entry, dictionary, stream) still shadows
+the ancestors and reads as absent: Letter default -/
+example : createPage [] 3 { ty := .page, mb := some (.ref 5) }
+      { mb := some (.nums [some 0, some 0, some 2, some 2]) } =
+    some { id := 3, mediaBox := [0, 0, 1224, 1584], cropBox := none, rotation := 0, resources := none } := by
+  decide
+
+/-- REGRESSION WITNESS (C18-F2, fixed): before the repair `get_rectangle` / `get_integer` looked
+only at direct values — MediaBox and Rotate given as references to `[0 0 100 200]` and `90` came
+out as Letter, unrotated.  A return to that behaviour is what the correspondence run catches. -/
+theorem C18_witness_indirect_attribute :
+    let g : Graph := [(5, .raw (.nums [some 0, some 0, some 200, some 400])), (6, .raw (.int 90))]
+    let page : Dict := { ty := .page, mb := some (.ref 5), rot := some (.ref 6) }
+    createPageUnresolved g 3 page {} =
+      some { id := 3, mediaBox := [0, 0, 1224, 1584], cropBox := none, rotation := 0, resources := none } ∧
+    createPage g 3 page {} ≠ createPageUnresolved g 3 page {} := by
   decide
 
 /-! ## Part C — the two page counts -/
@@ -290,40 +414,65 @@ theorem C18_doc_page_count_document_order (g : Graph) (root : Dict) (f : Forest)
     docPageCount g root = some f.leaves.length := by
   simp [docPageCount, C18_flatten_document_order g root f hroots hag hnd hmax]
 
-/-- `PdfReader::page_count` returns the root's /Count (when it is a direct integer in
-0..=100000) without looking at the tree. -/
+/-- `PdfReader::page_count` is the same walk: it always equals `PdfDocument::page_count`. -/
+theorem C18_reader_eq_doc (g : Graph) (root : Dict) : readerPageCount g root = docPageCount g root := rfl
+
+/-- FULL (since the repair of C18-F1): on a well-formed tree `PdfReader::page_count` (and
+`DocumentMetadata::page_count`, which calls it) is the number of leaves in document order,
+whatever the root /Count says — absent, wrong, indirect, negative or huge. -/
+theorem C18_reader_page_count_document_order (g : Graph) (root : Dict) (f : Forest)
+    (hroots : resolveKids g root.kids = f.roots) (hag : Agrees (classify g) f)
+    (hnd : f.ids.Nodup) (hmax : f.leaves.length ≤ MAX_PAGES) :
+    readerPageCount g root = some f.leaves.length :=
+  C18_doc_page_count_document_order g root f hroots hag hnd hmax
+
+/-- … and without a bound on the number of leaves: the length of the list cut at MAX_PAGES. -/
+theorem C18_reader_page_count_truncated (g : Graph) (root : Dict) (f : Forest)
+    (hroots : resolveKids g root.kids = f.roots) (hag : Agrees (classify g) f)
+    (hnd : f.ids.Nodup) : readerPageCount g root = some (min MAX_PAGES f.leaves.length) := by
+  simp [readerPageCount, C18_flatten_document_order_truncated g root f hroots hag hnd]
+
+/-- on ANY graph the reader's count is defined, at most `min #objects MAX_PAGES` -/
+theorem C18_reader_page_count_bounded (g : Graph) (root : Dict) :
+    ∃ n, readerPageCount g root = some n ∧ n ≤ min g.length MAX_PAGES := by
+  obtain ⟨r, hr⟩ := Option.isSome_iff_exists.mp (C18_flatten_terminates g root)
+  exact ⟨r.length, by simp [readerPageCount, hr], C18_flatten_le_nodes g root r hr⟩
+
+example :
+    let g : Graph := [(2, .dict { ty := .page, parent := some 1 })]
+    let root : Dict := { ty := .pages, kids := .direct [.ref 2], count := some (.int 3) }
+    readerPageCount g root = some 1 := by decide
+
+/-- before the repair: the root's /Count (a direct integer in 0..=100000) without looking at
+the tree -/
 theorem C18_reader_page_count_is_count (g : Graph) (root : Dict) (c : Nat)
     (hc : root.count = some (.int c)) (hle : c ≤ MAX_PAGE_COUNT) :
-    readerPageCount g root = c := by
+    readerPageCountDeclared g root = c := by
   have hw : wrapU32 (c : Int) = c := by
     unfold wrapU32
     have : (c : Int) % 4294967296 = c := by
       apply Int.emod_eq_of_lt <;> simp [MAX_PAGE_COUNT] at hle ⊢ <;> omega
     rw [this]; simp
-  simp [readerPageCount, countValue, hc, hw, hle]
+  simp [readerPageCountDeclared, countValue, hc, hw, hle]
 
-/- FULL (false of the current code — see `C18_witness_reader_count`, finding C18-F1):
-   theorem C18_reader_page_count_document_order (g root f) (… well-formed as above …) :
-       readerPageCount g root = f.leaves.length
-   "the reported page count matches the document-order traversal" for `PdfReader::page_count`
-   (and `DocumentMetadata::page_count`, which calls it) on trees with a wrong /Count. -/
-
-/-- PARTIAL: the reader's count equals the traversal's exactly when the root /Count is right. -/
+/-- what held before the repair: the declared count equals the traversal's exactly when the
+root /Count is right -/
 theorem C18_reader_page_count_partial (g : Graph) (root : Dict) (f : Forest) (c : Nat)
     (hc : root.count = some (.int c)) (hle : c ≤ MAX_PAGE_COUNT)
     (hroots : resolveKids g root.kids = f.roots) (hag : Agrees (classify g) f)
     (hnd : f.ids.Nodup) (hmax : f.leaves.length ≤ MAX_PAGES) :
-    (some (readerPageCount g root) = docPageCount g root) ↔ c = f.leaves.length := by
+    (some (readerPageCountDeclared g root) = docPageCount g root) ↔ c = f.leaves.length := by
   rw [C18_reader_page_count_is_count g root c hc hle,
     C18_doc_page_count_document_order g root f hroots hag hnd hmax]
   simp
 
-/-- WITNESS (C18-F1): a well-formed one-page tree whose root says /Count 3 —
-`PdfReader::page_count` answers 3, the traversal (and `PdfDocument::page_count`) 1. -/
+/-- REGRESSION WITNESS (C18-F1, fixed): a well-formed one-page tree whose root says /Count 3 —
+the declared-count reading answers 3, the traversal (both APIs now) 1. -/
 theorem C18_witness_reader_count :
     let g : Graph := [(2, .dict { ty := .page, parent := some 1 })]
     let root : Dict := { ty := .pages, kids := .direct [.ref 2], count := some (.int 3) }
-    readerPageCount g root = 3 ∧ docPageCount g root = some 1 := by
+    readerPageCountDeclared g root = 3 ∧ docPageCount g root = some 1 ∧
+    readerPageCount g root = some 1 := by
   decide
 
 end OxiVerif.C18
